@@ -86,6 +86,7 @@ type FuncContract struct {
 	File    string
 	Line    int
 	Header  string
+	BitWidth int        // symbolic & | ^ &^ on signed ints are expanded over this many bits; operands are proved to lie in [0, 2^n)
 	Overflow bool       // generate signed-overflow obligations for + - * in this function
 	Logs     []LogClause // ghost-log primitives: calling this function appends a value to a named ghost log
 	Unfold  []string // recursive definitions whose unfolding axioms are given to the solver (default: none, applications stay opaque)
@@ -446,7 +447,7 @@ func (p *parser) primary() Expr {
 
 var blockRe = regexp.MustCompile(`(?s)/\*@(.*?)@\*/`)
 var clauseKw = map[string]bool{"requires": true, "ensures": true, "modifies": true, "loop": true, "panics": true,
-	"assume": true, "exit": true, "func": true, "pred": true, "spec": true, "inline": true, "noinline": true, "pure": true, "ghost": true, "rec": true, "bits": true, "unfold": true, "logs": true, "overflow": true, "freshresult": true}
+	"assume": true, "exit": true, "func": true, "pred": true, "spec": true, "inline": true, "noinline": true, "pure": true, "ghost": true, "rec": true, "bits": true, "unfold": true, "logs": true, "overflow": true, "freshresult": true, "lemma": true, "bitwidth": true, "ufun": true}
 
 // ReadContracts parses every contracts_verif*.go file of a package directory.
 func ReadContracts(dir string) (*PkgContracts, error) {
@@ -530,6 +531,23 @@ func (pc *PkgContracts) parseBlock(body, file string, line0 int) error {
 				pc.Bits = map[string]int{}
 			}
 			pc.Bits[f[0]] = n
+		case "ufun":
+			// ufun name(p1 T1, p2 T2) R  -- uninterpreted specification function
+			cur = nil
+			op := strings.Index(it.text, "(")
+			cl := strings.LastIndex(it.text, ")")
+			if op < 0 || cl < op {
+				return errf("ufun header")
+			}
+			pd := &PredDecl{Name: strings.TrimSpace(it.text[:op]), Kind: "ufun", ResType: strings.TrimSpace(it.text[cl+1:])}
+			for _, prm := range strings.Split(it.text[op+1:cl], ",") {
+				f := strings.Fields(strings.TrimSpace(prm))
+				if len(f) == 2 {
+					pd.Params = append(pd.Params, f[0])
+					pd.ParamTypes = append(pd.ParamTypes, f[1])
+				}
+			}
+			pc.Preds[pd.Name] = pd
 		case "pred", "spec", "rec":
 			cur = nil
 			eq := strings.Index(it.text, "=")
@@ -581,6 +599,13 @@ func (pc *PkgContracts) parseBlock(body, file string, line0 int) error {
 			switch it.kw {
 			case "overflow":
 				cur.Overflow = true
+				continue
+			case "bitwidth":
+				n, err := strconv.Atoi(strings.TrimSpace(text))
+				if err != nil || n < 1 || n > 64 {
+					return errf("bitwidth <1..64>")
+				}
+				cur.BitWidth = n
 				continue
 			case "logs":
 				// logs <logname>: <expr>
